@@ -9,6 +9,7 @@ def load_worlds():
         return
     import worlds.enip_seq          # noqa: F401
     import worlds.enip_proto        # noqa: F401
+    import worlds.enip_conc         # noqa: F401
     _loaded = True
 
 
@@ -93,5 +94,18 @@ PROPS = {
         assumptions=['RST is injected only after the server consumed the delivered prefix (a reset may discard unread bytes)'],
         quick=dict(parts=[dict(world='c02', count=400)]),
         thorough=dict(parts=[dict(world='c02', count=10000)], sweep=dict(world='c02', streams=24)),
+    ),
+    'C09': dict(
+        level='exploration',
+        rule=('one seed -> 1..3 short tags (<= 8 elements, wide types), 2..5 concurrent sessions (some connected), 3..8 requests '
+              'each: multi-element writes with unique values, multi-element reads, fragmented and attribute services, bundles, '
+              'on overlapping and private element ranges; scheduler policy (sticky/random/PCT), 0..3 line-level pre-emptions in '
+              'the request path (half of the runs focused on Attribute/Logix.request/dfa_post code), segmentation and latency '
+              'from the tape; invoke/return stamped with global event numbers; the recorded history plus a final read-back is '
+              'checked for linearizability against the array model (bundle members individually atomic, in order); '
+              'non-trivial = >= 4 requests, >= 2 on shared ranges, checker decided'),
+        assumptions=['linearizability search capped at 2e5 nodes; a cap hit is counted as undecided, never as pass or fail'],
+        quick=dict(parts=[dict(world='c09', count=400)]),
+        thorough=dict(parts=[dict(world='c09', count=20000)]),
     ),
 }
